@@ -82,7 +82,7 @@ PARTIAL = [
     "but the correspondence run compares canonical (sorted) dumps, so order is a model statement only",
     "item-name normalisation is a parameter (C09): the identity model identifies items by the normalised key the caller passes; "
     "the norm-based statements (C04_code_*, C04_add_packet_is_spec_packet) assume names stored normalised (ItemsNormOK)",
-    "'interleaved with parsing' (the property text) is carried by nothing here: parsing drives the same API functions (C03/C12's subject)",
+    "'interleaved with parsing' (the property text): superseded by the item of group gX below — the store calls of every parse are an in-contract history (C03_parse_is_store_history), so the history theorems apply to parsed content",
     "correspondence is three-way: the model driver runs specStep beside step on every in-contract history (families store, iter, storefault) and "
     "prints a marker into its answer when the documented model's prediction (result, every CIF's canonical dump, autocommit, handle liveness) "
     "differs from the store model's — the executable double check of C04_refines_hist; out-of-contract histories are compared store model vs "
